@@ -37,8 +37,10 @@ type cAttempt struct {
 	// (cScript.BufMax): the read fails with bufio.ErrTooLong, which is a lost connection like any other.
 	Oversized bool  `json:"oversized,omitempty"`
 	Latency   int64 `json:"latency,omitempty"` // virtual ns spent inside RoundTrip
-	Cuts      []int `json:"cuts,omitempty"`
-	ByteReads bool  `json:"byte_reads,omitempty"`
+	// StreamDelay: virtual ns that pass on the established connection before the first byte of the stream arrives
+	StreamDelay int64 `json:"stream_delay,omitempty"`
+	Cuts        []int `json:"cuts,omitempty"`
+	ByteReads   bool  `json:"byte_reads,omitempty"`
 }
 
 type cBackoff struct {
@@ -79,6 +81,21 @@ type cScript struct {
 // blockBody is a response body that never delivers anything until it is closed: a stream
 // that stays open. Reading it to the end blocks (durably, inside a bubble).
 var errBodyClosed = errors.New("read on closed response body")
+
+// delayedReader lets virtual time pass before the first Read returns.
+type delayedReader struct {
+	r    io.Reader
+	d    time.Duration
+	done bool
+}
+
+func (d *delayedReader) Read(p []byte) (int, error) {
+	if !d.done {
+		d.done = true
+		time.Sleep(d.d)
+	}
+	return d.r.Read(p)
+}
 
 // closeAware is a response body that records Close.
 type closeAware struct {
@@ -353,6 +370,10 @@ func runClient(t *testing.T, sc *cScript) (obs *cObs) {
 				obs.ReadErrs[a] = bufio.ErrTooLong
 			}
 			cr := &mon.ChunkReader{Data: sp.Stream, Cuts: sp.Cuts}
+			var body io.Reader = cr
+			if sp.StreamDelay > 0 {
+				body = &delayedReader{r: cr, d: time.Duration(sp.StreamDelay)}
+			}
 			if sp.ByteReads {
 				cr.Cuts = mon.EveryByte(len(sp.Stream))
 			}
@@ -384,7 +405,7 @@ func runClient(t *testing.T, sc *cScript) (obs *cObs) {
 				}
 			}
 			return &http.Response{Status: "200 OK", StatusCode: 200, Proto: "HTTP/1.1", ProtoMajor: 1, ProtoMinor: 1,
-				Header: http.Header{"Content-Type": []string{"text/event-stream; charset=utf-8"}}, Body: closeAware{cr, &bodyClosed, closeErr}, Request: r, ContentLength: -1}, nil
+				Header: http.Header{"Content-Type": []string{"text/event-stream; charset=utf-8"}}, Body: closeAware{body, &bodyClosed, closeErr}, Request: r, ContentLength: -1}, nil
 		})
 		cl := &sse.Client{
 			HTTPClient: &http.Client{Transport: rt},
@@ -683,6 +704,9 @@ func judgeClient(sc *cScript, obs *cObs, prop string) (out []jv) {
 			k = 0
 			startVT = vt
 			overflowed = false
+			// time that passes on the live connection before the stream's first byte: the attempt ends that
+			// much later, and a server retry value (parsed after it) restarts the elapsed-time clock there
+			vt += time.Duration(a.StreamDelay)
 			so := interpretAttempt(a, lastID)
 			for _, e := range so.Events {
 				if prop == "C10" || prop == "C11" || prop == "ALL" {
